@@ -185,7 +185,7 @@ RULE = {
             "string sweep and forced FormattedAs/Format schedules; Coq compares the stored bytes with Json.render byte for byte and parses them back. "
             "distinct_nontrivial = distinct cases whose payload is nested, unencodable, a non-empty string, or whose type needs escaping; table schedules with >1 op."),
     "C18": ("Process calls on the real cloudevents.FormatterFilter over the product payload kind x format x schema x source x signer x listed x predicate, "
-            "plus random payload data and multi-event sequences; the stored document is compared with CloudEvents.process byte for byte, serialized is "
+            "plus random payload data and the list of all fresh ids the run observed (distinctness); the stored document is compared with CloudEvents.process byte for byte, serialized is "
             "base64url-decoded inside Coq and compared with the unsigned document and with the signer's recorded input. "
             "distinct_nontrivial = distinct cases with a valid configuration (the document is built)."),
 }
